@@ -1,19 +1,26 @@
 """C16 — generation is a deterministic function of the model files alone.                      LEVEL: partial
 
-proof:   coq/Emit.v (generic, about the ABSTRACT emission pipeline: emit_id_invariant, emit_perm_invariant,
-         glob_delete_invariant, glob_write_invariant, run_history_independent, run_preserves_foreign — all id assignments,
-         iteration orders, prior directory states; view_state/const_state/memo_history_independent — all earlier generations
-         of the same process), instantiated at strings in coq/props/C16.v together with the instance obligations
+proof:   coq/Emit.v (generic, about the ABSTRACT emission pipeline: emit_id_invariant, emit_perm_invariant, key_sorted_perm_invariant
+         / key_sorted_ties_exposed, glob_delete_invariant, glob_write_invariant, run_history_independent, run_preserves_foreign — all
+         id assignments, iteration orders, prior directory states; view_state/const_state/memo_history_independent — all earlier
+         generations of the same process), instantiated at strings in coq/props/C16.v together with the instance obligations
          `no_module_state` / `sites_covered` / `plugins_owned` computed on the site table that lib/x_emit.py extracts from
          the current generator (plugins, model.py, __main__.py).
-tie:     x_emit (syntactic classification of every set / random id / directory listing by its consumer, and — via
-         lib/emit_modstate.py — of every module-level name, class attribute, default value and functools cache by whether
-         any function can change it) + two streams on the REAL generator:
-         history stream: model lists {committed lsp.json, [lsp.json, extension.json] with keyword-named properties and
-         digit-named messages; for testdata also a small standalone model and its extension} x {PYTHONHASHSEED 1, 2, 3, random} x
-         {fresh directory, re-run into the same directory, run after the other model list in the same directory, run after
-         hand-placed stale files matching the plugin's owned pattern}, byte comparison of whole output trees, plus a scan of
-         the output for uuid-shaped strings;
+tie:     x_emit (syntactic classification of every set / random id / directory listing by its consumer — a keyed sort of a set counts
+         as sorted only for a syntactically injective key — and, via lib/emit_modstate.py, of every module-level name, class attribute,
+         default value and functools cache by whether any function can change it; ownership: effects of the exported generate function
+         followed through the helper functions of the plugin package in order of effects) + two streams on the REAL generator:
+         history stream: model lists {committed lsp.json; [lsp.json, extension.json] with keyword-named properties and digit-named
+         messages; EVOLVED lists that stress order dependence: [lsp.json, collide.json] (methods, structures, properties, enumeration
+         members whose derived names coincide or tie under plausible sort keys) and one evolved metamodel with ~100 additional
+         declarations (lib/evolve.py); for testdata a small standalone model, its extension and its colliding extension}
+         x {PYTHONHASHSEED 1, 2, 3, a fresh random number per run}
+         x {fresh directory, re-run into the same directory, run after the other model list in the same directory, run after
+         hand-placed stale files matching the plugin's owned pattern, run after a complete earlier output was DAMAGED in place
+         (files under generated names truncated / edited to the same length / emptied / extended), run after hand-placed files the
+         plugin does not own}, byte comparison of whole output trees, plus a scan of the output for uuid-shaped strings; a failing
+         history is re-run, reduced to one planted file when possible, and recorded with file name, planted content and first
+         differing line;
          process stream: several generations inside ONE Python process (lib/c16_inproc.py, entry point generator.__main__.main)
          — model A, then model B = A with every referenced enumeration's supportsCustomValues flipped and the first property
          of every extends/mixins base structure made optional/required (same names, different answers to every by-name
@@ -26,6 +33,7 @@ import concurrent.futures as cf
 import hashlib
 import json
 import os
+import random
 import re
 import shutil
 import subprocess
@@ -33,27 +41,58 @@ import subprocess
 import vcommon as V
 
 LEVEL = "proof"      # evidence level category; the claim itself is labelled PARTIAL in MANIFEST level text
-RULE = ("history stream: per plugin and model list — python/rust/dotnet on the committed lsp.json and on the EXTENDED list [lsp.json, extension.json] "
-        "(extension: 5 structures with Python-keyword properties, a request/notification whose names contain digits, an enumeration); "
-        "testdata on a small standalone model and its digit-named extension (quick) and on the full lists (thorough) — every combination of "
-        "PYTHONHASHSEED in {1, 2, 3, random} and run history in {fresh directory, re-run into the same directory, run after the OTHER model "
-        "list in the same directory, run after hand-placed stale files matching the owned pattern}; the whole output tree (path -> sha256) "
-        "must equal the reference tree of that (plugin, model list); distinct = distinct (plugin, model list, seed, history). "
+RULE = ("history stream: per plugin and model list — python/rust/dotnet on the committed lsp.json, on the EXTENDED list [lsp.json, extension.json] "
+        "(extension: 5 structures with Python-keyword properties, a request/notification whose names contain digits, an enumeration), on the "
+        "COLLIDING list [lsp.json, collide.json] (requests / notifications whose method-constant, snake-case, lower-case or last-segment names "
+        "coincide with each other or with a committed method; structures, properties and enumeration members whose names differ only in case or "
+        "separators) and on one evolved metamodel with ~100 additional declarations (lib/evolve.py: fam_core + reference families); "
+        "testdata on a small standalone model, its digit-named extension and its colliding extension (quick) and on the full lists (thorough) — "
+        "PYTHONHASHSEED in {1, 2, 3, a random number drawn per run and recorded} x run history in {fresh directory, re-run into the same "
+        "directory, run after the OTHER model list in the same directory, run after hand-placed stale files matching the owned pattern, run "
+        "after a complete earlier output was damaged in place (up to four generated files: truncated to half, one byte changed at the same "
+        "length, emptied, extended), run after hand-placed files the plugin does not own (these are left out of the comparison; whether they "
+        "survive is recorded)}; the whole output tree (path -> sha256) must equal the reference tree of that (plugin, model list); a failing "
+        "combination is re-run next to the reference and reduced to one planted file when that still fails; "
+        "distinct = distinct (plugin, model list, seed, history). "
         "process stream: per plugin (python/rust/dotnet on lsp.json, testdata on the small model; thorough: testdata on lsp.json too) the "
         "generation sequences [A, B, A], [B, A] and [E, A, E] (E = the extended model list, which has more definitions) inside one Python process, and one process running all plugins interleaved "
         "[p1 A, p2 A, p3 A, p1 B, p2 B, p3 B, p1 A]; B = A with the supportsCustomValues flag of every referenced enumeration flipped and the "
         "optional flag of the first property of every extends/mixins base flipped (nothing renamed); every step's output tree must equal the "
         "tree written by a fresh process for the same (plugin, model), and fresh A and fresh B must differ (non-vacuity); "
         "distinct = distinct (sequence, step)")
-SEEDS = ["1", "2", "random"]
-HISTS = ["fresh", "rerun", "after-other-model", "after-stale-files"]
+FIXED_SEEDS = ["1", "2"]
+HISTS = ["fresh", "rerun", "after-other-model", "after-stale-files", "after-damaged-output", "after-foreign-files"]
+PLANTED = ("after-stale-files", "after-damaged-output", "after-foreign-files")
 OTHER = {"committed": "extended", "extended": "committed", "small": "small-ext", "small-ext": "small"}
 UUID_RE = re.compile(rb"[0-9a-f]{8}-[0-9a-f]{4}-[1-5][0-9a-f]{3}-[89ab][0-9a-f]{3}-[0-9a-f]{12}")
 Z64 = "0" * 64
-STALE = {"python": [("lsprotocol/types.py", "# stale content from an earlier model\nclass Stale: ...\n")],
-         "rust": [("lsprotocol/src/lib.rs", "// stale\npub struct Stale;\n")],
-         "dotnet": [("lsprotocol/Stale.cs", "// stale\nclass Stale {}\n"), ("lsprotocol/ZzzOld2.cs", "// stale\n")],
-         "testdata": [("StaleRequest-True-%s.json" % Z64, "{}\n"), ("Stale2ThingNotification-False-%s.json" % Z64, "{}\n")]}
+# previous contents of the output directory, planted by hand before the run.
+# role "owned-name": a name the plugin generates, with other bytes; "owned-pattern": matches what the plugin cleans, but is not
+# generated for this model; "foreign": neither — must not influence the owned output
+STALE = {"python": [("lsprotocol/types.py", "owned-name", "# stale content from an earlier model\nclass Stale: ...\n")],
+         "rust": [("lsprotocol/src/lib.rs", "owned-name", "// stale\npub struct Stale;\n")],
+         "dotnet": [("lsprotocol/Stale.cs", "owned-pattern", "// stale\nclass Stale {}\n"), ("lsprotocol/ZzzOld2.cs", "owned-pattern", "// stale\n"),
+                    ("lsprotocol/Position.cs", "owned-name", "// an older Position\nclass Position {}\n")],
+         "testdata": [("StaleRequest-True-%s.json" % Z64, "owned-pattern", "{}\n"), ("Stale2ThingNotification-False-%s.json" % Z64, "owned-pattern", "{}\n")]}
+FOREIGN = {"python": [("lsprotocol/_hooks.py", "# hand written, not generated\n"), ("lsprotocol/py.typed", ""), ("notes.txt", "keep me\n")],
+           "rust": [("lsprotocol/Cargo.toml", "[package]\nname = \"hand-written\"\n"), ("lsprotocol/src/extra.rs", "// hand written\n"), ("notes.txt", "keep me\n")],
+           "dotnet": [("lsprotocol/lsprotocol.csproj", "<Project Sdk=\"Microsoft.NET.Sdk\" />\n"), ("lsprotocol/Position.cs.orig", "// backup\n"), ("notes.txt", "keep me\n")],
+           "testdata": [("notes.txt", "keep me\n"), ("README.md", "# hand written\n"), ("index.jsonl", "{}\n")]}
+DAMAGES = ["truncated", "same-length-edit", "emptied", "extended"]
+
+
+def damage(kind, b):
+    """what an interrupted run / an editor leaves behind under a generated name"""
+    if kind == "truncated":
+        return b[:len(b) // 2]
+    if kind == "same-length-edit":
+        m = len(b) // 2
+        return (b[:m] + (b"#" if b[m:m + 1] != b"#" else b"%") + b[m + 1:]) if b else b"#"
+    if kind == "emptied":
+        return b""
+    if kind == "extended":
+        return b + b"\n// tail left behind by an earlier run\n"
+    raise ValueError(kind)
 
 
 def tree(d):
@@ -77,8 +116,43 @@ def _base(n):
     return {"kind": "base", "name": n}
 
 
-def write_models(base):
-    """model files used by the stream -> {model list name: [paths] or None for the packaged default}"""
+def collide_extension(params):
+    """an extension model whose declarations stress every place where the generator orders or de-duplicates by a DERIVED name:
+    methods with the same method constant (snake case, upper case: `workspaceSymbol/resolve` ~ `workspace/symbol/resolve`), the same
+    lower-case form, the same last segment, the same length; structures / properties / enumeration members that differ only in case
+    or separators.  Every declaration keeps a distinct typeName / name, so the committed generator accepts the list."""
+    reqs, nots = [], []
+    result = {"kind": "or", "items": [_ref(params), _base("null")]}
+    for method, tn in (("workspace/symbol/resolve", "ZzWorkspaceSymbolTreeResolveRequest"), ("workspace_symbol/resolve", "ZzWorkspaceSymbolSnakeResolveRequest"),
+                       ("zz/fooBar", "ZzFooBarCamelRequest"), ("zz/foo_bar", "ZzFooBarSnakeRequest"), ("zz/foo/bar", "ZzFooBarPathRequest"),
+                       ("zzFoo/bar", "ZzFooBarHeadRequest"), ("zz/foobar", "ZzFoobarLowerRequest"), ("zz/FooBar", "ZzFooBarPascalRequest"),
+                       ("textDocument/will_save_wait_until", "ZzWillSaveWaitUntilSnakeRequest")):
+        reqs.append({"method": method, "typeName": tn, "messageDirection": "clientToServer", "params": _ref(params), "result": result})
+    for method, tn in (("progress", "ZzBareProgressNotification"), ("/progress", "ZzSlashProgressNotification"), ("zz/didThing", "ZzDidThingCamelNotification"),
+                       ("zz/did_thing", "ZzDidThingSnakeNotification"), ("zz/did/thing", "ZzDidThingPathNotification"), ("zz/resolve", "ZzResolveNotification"),
+                       ("text_document/did_open", "ZzDidOpenSnakeNotification")):
+        nots.append({"method": method, "typeName": tn, "messageDirection": "both", "params": _ref(params)})
+    props = [{"name": "fooBar", "type": _base("string")}, {"name": "foo_bar", "type": _base("integer"), "optional": True},
+             {"name": "FooBar", "type": _base("boolean"), "optional": True}, {"name": "kind", "type": _ref("ZzCollideKind"), "optional": True}]
+    structs = [{"name": n, "properties": props} for n in ("ZzCollideItem", "ZzCollideitem", "ZzCOLLIDEItem", "ZzHTTPServer", "ZzHttpServer", "ZzAb", "ZzBa")]
+    enums = [{"name": "ZzCollideKind", "type": _base("string"), "values": [{"name": n, "value": n} for n in ("alpha", "Alpha", "ALPHA", "betaGamma", "beta_gamma")]},
+             {"name": "ZzCollidekind", "type": _base("uinteger"), "values": [{"name": "One", "value": 1}, {"name": "one", "value": 2}]}]
+    return {"metaData": {"version": "3.17.0"}, "requests": reqs, "notifications": nots, "structures": structs, "enumerations": enums, "typeAliases": []}
+
+
+def many_declarations(doc):
+    """one evolved metamodel without duplicates but with many new declarations: the combined C06 families of lib/evolve.py
+    (messages, keyword properties, inheritance with re-declaration, enumerations) plus one structure per (target, context)"""
+    import evolve
+    m = evolve.fam_core(doc)
+    targets = [("struct", n) for n in ("Position", "Range", "Command", "TextEdit", "Location", "MarkupContent")] + \
+              [("base", b) for b in ("string", "integer", "uinteger", "decimal", "boolean", "DocumentUri", "URI")]
+    return evolve.fam_refs(m, targets, "S")
+
+
+def write_models(base, documents=None):
+    """model files used by the stream -> {model list name: [paths] or None for the packaged default}.
+    `documents` (from a replay file): {name: document} written instead of the documents computed here"""
     kw = ["from", "import", "class", "global", "lambda"]
     structs = [{"name": "ZzKeyword%sHolder" % k.capitalize(), "documentation": "Extension structure with a Python keyword property.",
                 "properties": [{"name": k, "type": _base("string")}, {"name": "other", "type": _base("integer"), "optional": True}]} for k in kw]
@@ -93,17 +167,32 @@ def write_models(base):
     meta = {"version": "3.17.0"}
     ext = {"metaData": meta, "requests": [digit_req], "notifications": [digit_not], "structures": structs, "enumerations": enums, "typeAliases": []}
     packaged = os.path.join(V.REPO, "generator", "lsp.json")
-    aliases = [a for a in json.load(open(packaged))["typeAliases"] if a["name"] in ("LSPAny", "LSPObject", "LSPArray")]
+    committed = json.load(open(packaged))
+    aliases = [a for a in committed["typeAliases"] if a["name"] in ("LSPAny", "LSPObject", "LSPArray")]
     small = {"metaData": meta, "requests": [plain_req], "notifications": [], "structures": structs, "enumerations": enums, "typeAliases": aliases}
     small_ext = dict(small, requests=[plain_req, digit_req], notifications=[digit_not])
-    variant, edits = variant_of(json.load(open(packaged)))
+    variant, edits = variant_of(committed)
     small_variant, small_edits = variant_of(small)
+    docs = {"extension": ext, "small": small, "small-ext": small_ext, "variant": variant, "small-variant": small_variant,
+            "collide": collide_extension("WorkspaceSymbol"), "small-collide": collide_extension("ZzUtf8StatusParams"), "many": many_declarations(committed)}
+    docs.update(documents or {})
     paths = {}
-    for name, doc in (("extension", ext), ("small", small), ("small-ext", small_ext), ("variant", variant), ("small-variant", small_variant)):
+    for name, doc in docs.items():
         paths[name] = os.path.join(base, name + ".json")
         json.dump(doc, open(paths[name], "w"))
-    return {"committed": None, "extended": [packaged, paths["extension"]], "small": [paths["small"]], "small-ext": [paths["small-ext"]],
-            "variant": [paths["variant"]], "small-variant": [paths["small-variant"]], "_edits": {"variant": edits, "small-variant": small_edits}}
+    lists = {"committed": None, "extended": [packaged, paths["extension"]], "small": [paths["small"]], "small-ext": [paths["small-ext"]],
+             "variant": [paths["variant"]], "small-variant": [paths["small-variant"]],
+             "collide": [packaged, paths["collide"]], "small-collide": [paths["small"], paths["small-collide"]], "many": [paths["many"]]}
+    # what a replay file says about a model list: the committed file by name, every small document in full
+    describe = {}
+    for name, files in lists.items():
+        describe[name] = ["generator/lsp.json (committed)"] if files is None else \
+            ["generator/lsp.json (committed)" if f == packaged else
+             ({"file": os.path.basename(f), "document": docs[os.path.basename(f)[:-5]]} if os.path.getsize(f) < 40000 else
+              {"file": os.path.basename(f), "document": "computed by lib/props/c16.py write_models (%d bytes)" % os.path.getsize(f)}) for f in files]
+    lists["_edits"] = {"variant": edits, "small-variant": small_edits}
+    lists["_describe"] = describe
+    return lists
 
 
 def variant_of(doc):
@@ -148,33 +237,93 @@ def gen(plugin, seed, out, model=None):
     return p.returncode, (p.stdout + p.stderr)[-1500:]
 
 
-def combo(plugin, mlist, seed, hist, base, models):
-    """run one (plugin, model list, seed, history) in its own directory; returns (tree, leaks, error, tree after the first of two runs)"""
-    d = os.path.join(base, "%s-%s-%s-%s" % (plugin, mlist, seed, hist))
+def _show(b, limit=1500):
+    """bytes -> what the replay file says about them"""
+    t = b.decode("utf-8", "replace")
+    return {"bytes": len(b), "sha256": hashlib.sha256(b).hexdigest(), "text": t if len(t) <= limit else t[:limit] + "... <%d more characters>" % (len(t) - limit)}
+
+
+def damage_plan(files, rot):
+    """which generated files to damage and how: up to four files spread over the sorted names, damage kinds rotated by `rot`"""
+    files = sorted(files)
+    n = min(len(DAMAGES), len(files))
+    idx = sorted({(i * (len(files) - 1)) // max(1, n - 1) for i in range(n)}) if files else []
+    return [{"path": files[j], "role": "owned-name", "damage": DAMAGES[(k + rot) % len(DAMAGES)]} for k, j in enumerate(idx)]
+
+
+def default_plan(plugin, hist):
+    if hist == "after-stale-files":
+        return [{"path": rel, "role": role, "content": txt} for rel, role, txt in STALE[plugin]]
+    if hist == "after-foreign-files":
+        return [{"path": rel, "role": "foreign", "content": txt} for rel, txt in FOREIGN[plugin]]
+    return None
+
+
+def combo(plugin, mlist, seed, hist, base, models, plan=None, keep=False, tag=""):
+    """run one (plugin, model list, seed, history) in its own directory.
+    plan: what to plant before the judged run — [{"path", "role", "content"}] (hand-placed files) or, for after-damaged-output,
+    [{"path", "damage"}] applied to the output of a first run (default: damage_plan over that output).
+    -> {"tree", "leaks", "error", "first": tree after the first of two runs, "planted": the concrete directory state before the judged
+        run (name, role, bytes), "after": what stands under each planted name after the run, "dir" (keep=True)}"""
+    d = os.path.join(base, "%s-%s-%s-%s%s" % (plugin, mlist, seed, hist, tag))
     os.makedirs(d, exist_ok=True)
-    first = None
+    r = {"tree": None, "leaks": [], "error": None, "first": None, "planted": [], "after": [], "dir": d if keep else None}
     try:
         if hist == "rerun":
             rc, log = gen(plugin, seed, d, models[mlist])
             if rc:
-                return None, [], "first run failed: " + log, None
+                r["error"] = "first run failed: " + log
+                return r
         elif hist == "after-other-model":
             rc, log = gen(plugin, seed, d, models[OTHER[mlist]])
             if rc:
-                return None, [], "run on the other model list (%s) failed: %s" % (OTHER[mlist], log), None
+                r["error"] = "run on the other model list (%s) failed: %s" % (OTHER[mlist], log)
+                return r
+            r["first"], _ = tree(d)
+        elif hist == "after-damaged-output":
+            rc, log = gen(plugin, seed, d, models[mlist])
+            if rc:
+                r["error"] = "first run failed: " + log
+                return r
             first, _ = tree(d)
-        elif hist == "after-stale-files":
-            for rel, txt in STALE[plugin]:
-                p = os.path.join(d, rel)
-                os.makedirs(os.path.dirname(p), exist_ok=True)
-                open(p, "w").write(txt)
+            r["first"] = first
+            if plan is None:
+                plan = damage_plan(first, int(seed) % len(DAMAGES) if seed.isdigit() else 0)
+            for it in plan:
+                fp = os.path.join(d, it["path"])
+                try:
+                    old = open(fp, "rb").read()
+                except OSError:
+                    old = b""
+                newb = damage(it["damage"], old)
+                os.makedirs(os.path.dirname(fp), exist_ok=True)
+                open(fp, "wb").write(newb)
+                r["planted"].append(dict(it, role="owned-name", how="what the first run wrote under this name (%d bytes, sha256 %s), then %s" % (len(old), hashlib.sha256(old).hexdigest()[:16], it["damage"]),
+                                         planted=_show(newb), _sha=hashlib.sha256(newb).hexdigest()))
+        if hist in ("after-stale-files", "after-foreign-files"):
+            plan = default_plan(plugin, hist) if plan is None else plan
+            for it in plan:
+                fp = os.path.join(d, it["path"])
+                os.makedirs(os.path.dirname(fp), exist_ok=True)
+                newb = it["content"].encode("utf-8")
+                open(fp, "wb").write(newb)
+                r["planted"].append(dict(it, how="written by hand before the run", planted=_show(newb, 300), _sha=hashlib.sha256(newb).hexdigest()))
         rc, log = gen(plugin, seed, d, models[mlist])
         if rc:
-            return None, [], "run failed: " + log, None
-        t, leaks = tree(d)
-        return t, leaks, None, first
+            r["error"] = "run failed: " + log
+            return r
+        r["tree"], r["leaks"] = tree(d)
+        for it in r["planted"]:
+            try:
+                nb = open(os.path.join(d, it["path"]), "rb").read()
+                r["after"].append({"path": it["path"], "role": it["role"], "after_run": "still the planted bytes" if hashlib.sha256(nb).hexdigest() == it["_sha"] else "rewritten",
+                                   "bytes": len(nb), "sha256": hashlib.sha256(nb).hexdigest()})
+            except OSError:
+                r["after"].append({"path": it["path"], "role": it["role"], "after_run": "removed"})
+        return r
     finally:
-        shutil.rmtree(d, ignore_errors=True)
+        if not keep:
+            shutil.rmtree(d, ignore_errors=True)
         shutil.rmtree(d + "-tests", ignore_errors=True)
 
 
@@ -198,8 +347,9 @@ def process_sequences(tier):
     return seqs
 
 
-def first_difference(fresh_dir, hist_dir, rel):
+def first_difference(fresh_dir, hist_dir, rel, labels=("fresh_process", "after_history")):
     """first differing line of one file"""
+    la, lb = labels
     try:
         a = open(os.path.join(fresh_dir, rel), "rb").read().decode("utf-8", "replace").split("\n")
     except OSError:
@@ -209,12 +359,12 @@ def first_difference(fresh_dir, hist_dir, rel):
     except OSError:
         b = None
     if a is None or b is None:
-        return {"file": rel, "fresh_process": "<file missing>" if a is None else "<present>", "after_history": "<file missing>" if b is None else "<present>"}
+        return {"file": rel, la: "<file missing>" if a is None else "<present>", lb: "<file missing>" if b is None else "<present>"}
     for i in range(max(len(a), len(b))):
         x = a[i] if i < len(a) else "<end of file>"
         y = b[i] if i < len(b) else "<end of file>"
         if x != y:
-            return {"file": rel, "line": i + 1, "fresh_process": x[:300], "after_history": y[:300]}
+            return {"file": rel, "line": i + 1, la: x[:300], lb: y[:300]}
     return {"file": rel, "line": None}
 
 
@@ -269,20 +419,26 @@ def process_sequence(name, seed, steps, base, models):
         shutil.rmtree(root, ignore_errors=True)
 
 
-def jobs_for(tier, extra_seeds=()):
-    """(plugin, model list, seed, history) combinations of a tier"""
+def jobs_for(tier, rnd, extra_seeds=()):
+    """(plugin, model list, seed, history) combinations of a tier; rnd = the hash seed drawn for this run"""
     jobs = []
-    seeds = SEEDS + list(extra_seeds)
+    seeds = FIXED_SEEDS + [rnd] + list(extra_seeds)
     for p in ("python", "rust", "dotnet"):
         jobs += [(p, "committed", s, h) for s in seeds for h in HISTS]
-        jobs += [(p, "extended", s, "fresh") for s in ["1", "2", "3", "random"] + list(extra_seeds)]
+        jobs += [(p, "extended", s, "fresh") for s in ["1", "2", "3", rnd] + list(extra_seeds)]
         jobs += [(p, "extended", s, "after-other-model") for s in ("1", "2")]
+        # evolved model lists: order dependence that the committed model does not trigger
+        jobs += [(p, "collide", s, "fresh") for s in ["1", "2", "3", rnd] + list(extra_seeds)]
+        jobs += [(p, "many", s, "fresh") for s in ["1", "2", rnd]]
     jobs += [("testdata", "small", s, h) for s in seeds for h in HISTS]
     jobs += [("testdata", "small-ext", s, "fresh") for s in ("1", "2", "3")]
+    jobs += [("testdata", "small-collide", s, "fresh") for s in ["1", "2", "3", rnd] + list(extra_seeds)]
     if tier == "thorough":
-        jobs += [("testdata", "committed", s, h) for s in SEEDS for h in HISTS]
+        jobs += [("testdata", "committed", s, h) for s in FIXED_SEEDS + [rnd] for h in HISTS]
         jobs += [("testdata", "extended", s, "fresh") for s in ("1", "2")]
-    return jobs
+        jobs += [("testdata", "collide", s, "fresh") for s in ("1", "2")]
+    seen = set()
+    return [j for j in jobs if not (j in seen or seen.add(j))]
 
 
 def diff_trees(a, b):
@@ -290,13 +446,14 @@ def diff_trees(a, b):
             "content_differs": sorted(k for k in a if k in b and a[k] != b[k])[:10]}
 
 
-def run_stream(jobs, workers=10, seqs=()):
-    """-> ({(plugin, model list, seed, hist): (tree, leaks, err, first)}, [result of process_sequence], edits of the variant models)"""
+def run_stream(jobs, workers=10, seqs=(), documents=None, after=None):
+    """-> ({(plugin, model list, seed, hist): result of combo}, [result of process_sequence], model lists)
+    after(res, base, models): called while the scratch directory still exists (confirmation / reduction of failures)"""
     res = {}
     with V.scratch("verif-c16-") as base:
-        models = write_models(base)
+        models = write_models(base, documents)
         # heavy jobs first
-        order = sorted(jobs, key=lambda j: (-(j[0] == "testdata" and j[1] in ("committed", "extended")), -(j[0] == "dotnet"), j))
+        order = sorted(jobs, key=lambda j: (-(j[0] == "testdata" and j[1] in ("committed", "extended", "collide")), -(j[0] == "dotnet"), -(j[3] in ("rerun", "after-other-model", "after-damaged-output")), j))
         with cf.ThreadPoolExecutor(workers) as ex:
             heavy = [q for q in seqs if any(p == "testdata" and m in ("committed", "variant") for p, m in q[2])]
             sfuts = [(q, ex.submit(process_sequence, q[0], q[1], q[2], base, models)) for q in heavy + [q for q in seqs if q not in heavy]]
@@ -305,7 +462,14 @@ def run_stream(jobs, workers=10, seqs=()):
                 res[j] = futs[j].result()
             done = {q[0]: f.result() for q, f in sfuts}
         pres = [done[q[0]] for q in seqs]
-    return res, pres, models["_edits"]
+        extra = after(res, base, models) if after else None
+    return res, pres, models, extra
+
+
+def owned_tree(r):
+    """the output tree of a run without the hand-placed files that the plugin does not own"""
+    foreign = {it["path"] for it in r["planted"] if it["role"] == "foreign"}
+    return {k: v for k, v in r["tree"].items() if k not in foreign}
 
 
 def judge(res):
@@ -315,19 +479,142 @@ def judge(res):
     for (p, m, s, h), r in res.items():
         groups.setdefault((p, m), []).append(((s, h), r))
     for (p, m), rows in groups.items():
-        ref = next((r[0] for (s, h), r in rows if r[0] is not None and (s, h) == ("1", "fresh")), None) or \
-            next((r[0] for (s, h), r in rows if r[0] is not None), None)
-        for (s, h), (t, leaks, err, first) in rows:
+        ref = next((r["tree"] for (s, h), r in rows if r["tree"] is not None and (s, h) == ("1", "fresh")), None) or \
+            next((r["tree"] for (s, h), r in rows if r["tree"] is not None and h == "fresh"), None) or \
+            next((r["tree"] for (s, h), r in rows if r["tree"] is not None), None)
+        for (s, h), r in rows:
             here = {"plugin": p, "models": m, "seed": s, "history": h}
-            if err:
-                bad.append(dict(here, what="generator failed", detail=err[-600:]))
-            elif h == "after-other-model" and first == ref:
+            planted = [{k: v for k, v in it.items() if not k.startswith("_")} for it in r["planted"]]
+            if r["error"]:
+                bad.append(dict(here, what="generator failed", detail=r["error"][-600:], planted=planted))
+            elif h == "after-other-model" and r["first"] == ref:
                 bad.append(dict(here, what="vacuous history: the other model list produces the reference tree, nothing is tested"))
-            elif t != ref:
-                bad.append(dict(here, what="output tree differs from the reference run (seed 1, fresh directory, same model list)", diff=diff_trees(ref, t)))
-            elif leaks:
-                bad.append(dict(here, what="uuid-shaped string in the output", files=leaks[:5]))
+            elif h == "after-damaged-output" and (not r["planted"] or all(r["first"].get(it["path"]) == it["_sha"] for it in r["planted"])):
+                bad.append(dict(here, what="vacuous history: nothing could be damaged in the output of the first run"))
+            elif h in PLANTED and any(it["role"] == "foreign" and it["path"] in ref for it in r["planted"]):
+                bad.append(dict(here, what="vacuous history: a file planted as foreign has a name that the plugin generates", planted=planted))
+            elif owned_tree(r) != ref:
+                t = owned_tree(r)
+                df = diff_trees(ref, t)
+                names = set(df["only_in_reference"] + df["only_in_this_run"] + df["content_differs"])
+                bad.append(dict(here, what="output tree differs from the reference run (seed 1, fresh directory, same model list)", diff=df,
+                                planted=planted, after_run=r["after"],
+                                survived=[dict(a, reference_sha256=ref.get(a["path"], "<not generated for this model>")) for a in r["after"]
+                                          if a["path"] in names and a["role"] != "foreign"]))
+            elif r["leaks"]:
+                bad.append(dict(here, what="uuid-shaped string in the output", files=r["leaks"][:5]))
     return bad
+
+
+REDUCIBLE = ("collide", "small-collide", "extended")
+
+
+def reduce_extension(p, m, s, base, models, budget_s=45):
+    """greedy reduction of the LAST (small, generated) document of model list m while the python-hash-seed dependence persists:
+    sections first, then halves of the remaining lists.  A candidate is run under the seeds 1, s, 2, 3; it fails when some tree differs
+    from the tree of seed 1.  -> (reduced document, path, failing seed) or None"""
+    import time
+    files = models[m]
+    doc = json.load(open(files[-1]))
+    t0 = time.time()
+    n = [0]
+
+    def fails(cand):
+        n[0] += 1
+        path = os.path.join(base, "reduce-%s-%s-%d.json" % (p, m, n[0]))
+        json.dump(cand, open(path, "w"))
+        trial = dict(models)
+        trial[m] = list(files[:-1]) + [path]
+        seeds = list(dict.fromkeys(["1", s, "2", "3"]))
+        with cf.ThreadPoolExecutor(len(seeds)) as ex:
+            rs = list(ex.map(lambda sd: combo(p, m, sd, "fresh", base, trial, tag="-reduce%d" % n[0]), seeds))
+        if rs[0]["tree"] is None:
+            return None
+        for sd, r in zip(seeds[1:], rs[1:]):
+            if r["tree"] is not None and r["tree"] != rs[0]["tree"]:
+                return path, sd
+        return None
+
+    best = None
+    cur = doc
+    sections = [k for k in ("structures", "enumerations", "typeAliases", "requests", "notifications") if cur.get(k)]
+    # whole sections (structures and enumerations together: the structures refer to the enumerations)
+    for group in (("structures", "enumerations", "typeAliases"), ("notifications",), ("requests",)):
+        if time.time() - t0 > budget_s or not any(cur.get(k) for k in group):
+            continue
+        cand = dict(cur, **{k: [] for k in group})
+        f = fails(cand)
+        if f:
+            cur, best = cand, f
+    for k in sections:
+        while len(cur.get(k, [])) > 1 and time.time() - t0 < budget_s:
+            lst = cur[k]
+            h = len(lst) // 2
+            for part in (lst[:h], lst[h:]):
+                cand = dict(cur, **{k: part})
+                f = fails(cand)
+                if f:
+                    cur, best = cand, f
+                    break
+            else:
+                break
+    if best is None:
+        return None
+    return cur, best[0], best[1]
+
+
+def explain(b, base, models, reduce=True):
+    """re-run a failing combination next to its reference (confirmation), reduce a planted history to ONE planted file when that
+    alone still fails, and describe the first differing line per file -> the concrete input of the replay file"""
+    p, m, s, h = b["plugin"], b["models"], b["seed"], b["history"]
+    model_files = models["_describe"].get(m)
+    reduced = None
+    if reduce and h == "fresh" and s != "1" and m in REDUCIBLE and b.get("diff"):
+        red = reduce_extension(p, m, s, base, models)
+        if red:
+            doc, path, s = red
+            models = dict(models, **{m: list(models[m][:-1]) + [path]})
+            model_files = list(model_files[:-1]) + [{"file": model_files[-1]["file"], "document": doc}]
+            reduced = "the last model file was reduced from the generated document of lib/props/c16.py (%s) while a hash-seed difference persisted" % m
+    ref = combo(p, m, "1", "fresh", base, models, keep=True, tag="-explain-ref")
+    out = {"plugin": p, "models": m, "model_files": model_files, "seed": s, "history": h,
+           "reference": {"seed": "1", "history": "fresh", "same_model_files": True}, "confirmed_by_second_run": False}
+    if reduced:
+        out["reduced_model"] = reduced
+    try:
+        if ref["tree"] is None:
+            out["note"] = "the reference run failed: " + str(ref["error"])[-300:]
+            return out
+        plans = [None]
+        if h in PLANTED and b.get("planted"):
+            full = [{k: it[k] for k in ("path", "role", "content", "damage") if k in it} for it in b["planted"]]
+            names = set(b.get("diff", {}).get("only_in_this_run", []) + b.get("diff", {}).get("content_differs", []) + b.get("diff", {}).get("only_in_reference", []))
+            culprits = [it for it in full if it["path"] in names] or full
+            plans = [[it] for it in culprits[:3]] + [full]
+        for i, plan in enumerate(plans):
+            r = combo(p, m, s, h, base, models, plan=plan, keep=True, tag="-explain-%d" % i)
+            try:
+                if r["tree"] is None:
+                    if i == len(plans) - 1:
+                        out.update(confirmed_by_second_run=b.get("what") == "generator failed", observed={"what": "generator failed", "detail": str(r["error"])[-600:]})
+                    continue
+                t = owned_tree(r)
+                if t == ref["tree"]:
+                    continue
+                df = diff_trees(ref["tree"], t)
+                files = (df["content_differs"] + df["only_in_this_run"] + df["only_in_reference"])[:3]
+                planted = [{k: v for k, v in it.items() if not k.startswith("_")} for it in r["planted"]]
+                out.update(confirmed_by_second_run=True, directory_before_the_run=planted or ("empty" if h == "fresh" else h),
+                           plan=plan, reduced_to_one_planted_file=bool(plan) and len(plan) == 1 and len(b.get("planted", [])) > 1,
+                           observed={"diff": df, "planted_files_after_the_run": r["after"],
+                                     "first_differences": [first_difference(ref["dir"], r["dir"], f, ("reference_run", "this_run")) for f in files]})
+                return out
+            finally:
+                shutil.rmtree(r["dir"], ignore_errors=True)
+        out.setdefault("note", "the difference did not show again in a second run of the same combination")
+        return out
+    finally:
+        shutil.rmtree(ref["dir"], ignore_errors=True)
 
 
 def run(chk):
@@ -381,9 +668,10 @@ def run(chk):
                     if n == bad:
                         reached = False
                     chk.obligation(n, reached and n != bad, "" if reached and n != bad else ("coqc failed here" if n == bad else "not reached"))
-                exposed = [s for s in info["sites"] if s["class"] in ("SExposed", "SModState")]
-                notown = [pl for pl in info["plugins"] if not ((pl["cleanup_first"] or pl["fixed_names"]) and pl["writes_owned"])]
+                exposed = [s for s in info["sites"] if s["class"] in ("SExposed", "SSortedByKey", "SModState")]
+                notown = [{k: v for k, v in pl.items() if k != "effects"} for pl in info["plugins"] if not ((pl["cleanup_first"] or pl["fixed_names"]) and pl["writes_owned"])]
                 broken.append(("proof", bad or "C16.v", {"exposed_sites": [x for x in exposed if x["class"] == "SExposed"],
+                                                          "set_sorted_by_a_key_not_known_to_be_injective": [x for x in exposed if x["class"] == "SSortedByKey"],
                                                           "module_state_changed_by_a_function": [x for x in exposed if x["class"] == "SModState"],
                                                           "plugins_without_cleanup_or_fixed_names": notown, "coq": out[-400:]}))
         else:
@@ -395,16 +683,32 @@ def run(chk):
                                      "immutable_names_never_rebound": info.get("modstate", {}).get("immutable_module_names"),
                                      "modules": len(info.get("modstate", {}).get("modules", []))}
 
-    jobs = jobs_for(chk.tier, ["4", "5"] if broken else [])      # an obligation broke: look harder for a real difference
+    rnd = str((random.Random(chk.seed) if chk.seed else random.SystemRandom()).randrange(6, 2 ** 32))       # a concrete number: replayable
+    jobs = jobs_for(chk.tier, rnd, ["4", "5"] if broken else [])      # an obligation broke: look harder for a real difference
     seqs = process_sequences(chk.tier)
-    res, pres, edits = run_stream(jobs, workers=10 if chk.tier == "quick" else 6, seqs=seqs)
-    for j, (t, leaks, err, _first) in res.items():
-        chk.count(j, nontrivial=t is not None)
-    bad = judge(res)
-    ntrees = sum(1 for r in res.values() if r[0] is not None)
+
+    def after(res, base, models):
+        bad = judge(res)
+        # the failure recorded as the counter-example: a hash-seed difference in a fresh directory or a planted directory state is
+        # more concrete than a two-run history, so prefer those
+        bad.sort(key=lambda b: (b["what"].startswith("vacuous"), b["history"] not in ("fresh",) + PLANTED, b["history"] != "fresh" and not b.get("survived"),
+                                b["models"] not in ("committed", "small")))
+        return bad, (explain(bad[0], base, models) if bad and not bad[0]["what"].startswith("vacuous") else None)
+
+    res, pres, models, (bad, explained) = run_stream(jobs, workers=14 if chk.tier == "quick" else 8, seqs=seqs, after=after)
+    edits = models["_edits"]
+    for j, r in res.items():
+        chk.count(j, nontrivial=r["tree"] is not None)
+    ntrees = sum(1 for r in res.values() if r["tree"] is not None)
     chk.obligation("history-stream:real-plugins-byte-identical", not bad,
-                   "%d runs-with-history (%s), %d differing" % (ntrees, ", ".join("%s/%s: %d" % (p, m, sum(1 for j in jobs if j[:2] == (p, m)))
-                                                                                 for p, m in sorted({j[:2] for j in jobs})), len(bad)))
+                   "%d runs-with-history (%s), %d differing; random hash seed of this run: %s" % (
+                       ntrees, ", ".join("%s/%s: %d" % (p, m, sum(1 for j in jobs if j[:2] == (p, m))) for p, m in sorted({j[:2] for j in jobs})), len(bad), rnd))
+    foreign = {}
+    for (p, m, s, h), r in sorted(res.items()):
+        for a in r["after"]:
+            if a["role"] == "foreign":
+                foreign.setdefault("%s:%s" % (p, a["path"]), set()).add(a["after_run"])
+    chk.extra["files_not_owned_by_the_plugin_after_a_run"] = {k: sorted(v) for k, v in foreign.items()}
     pbad = []
     for r in pres:
         for i in range(len(r["steps"])):
@@ -416,10 +720,11 @@ def run(chk):
     chk.obligation("process-stream:nth-generation-equals-fresh-process", not pbad,
                    "%d generations inside %d processes (%s) compared with fresh-process output, %d differing; model B = %d edits (%s, ...)"
                    % (ncomp, len(pres), ", ".join(r["name"] for r in pres), len(pbad), len(edits["variant"]), "; ".join(edits["variant"][:2])))
-    for j in [("dotnet", "committed", "2", "after-other-model"), ("python", "extended", "3", "fresh"), ("testdata", "small", "random", "after-other-model")]:
-        if j in res and res[j][0] is not None:
-            chk.sample({"plugin": j[0], "models": j[1], "seed": j[2], "history": j[3], "files": len(res[j][0]),
-                        "tree_digest": hashlib.sha1(json.dumps(res[j][0], sort_keys=True).encode()).hexdigest()[:12]})
+    for j in [("dotnet", "committed", "2", "after-damaged-output"), ("python", "collide", "3", "fresh"), ("testdata", "small", rnd, "after-other-model")]:
+        if j in res and res[j]["tree"] is not None:
+            chk.sample({"plugin": j[0], "models": j[1], "seed": j[2], "history": j[3], "files": len(res[j]["tree"]),
+                        "planted": [{k: it[k] for k in ("path", "role", "damage") if k in it} for it in res[j]["planted"]],
+                        "tree_digest": hashlib.sha1(json.dumps(res[j]["tree"], sort_keys=True).encode()).hexdigest()[:12]})
     for r in pres[:1] + pres[-1:]:
         chk.sample({"process_sequence": r["name"], "seed": r["seed"], "steps": r["steps"], "generations_compared_with_fresh_process": r["compared"]})
     chk.extra["traces_validated_against_impl"] = ntrees + ncomp
@@ -430,7 +735,8 @@ def run(chk):
     how = "./check C16 --replay <this file>"
     if bad:
         b = bad[0]
-        chk.violation({"property": "C16", "kind": "history", "input": {"plugin": b["plugin"], "models": b["models"], "seed": b["seed"], "history": b["history"]},
+        inp = explained or {"plugin": b["plugin"], "models": b["models"], "model_files": models["_describe"].get(b["models"]), "seed": b["seed"], "history": b["history"]}
+        chk.violation({"property": "C16", "kind": "history", "input": inp,
                        "expected": "byte-identical output tree for every hash seed and run history", "observed_impl": b,
                        "all_differing": [(x["plugin"], x["models"], x["seed"], x["history"]) for x in bad][:20], "broken": [x[:2] for x in broken], "how_to_replay": how})
     if pbad:
@@ -444,8 +750,8 @@ def run(chk):
                        "broken": [x[:2] for x in broken], "how_to_replay": how})
     if broken and not bad and not pbad:
         chk.violation({"property": "C16", "kind": "obligation no longer checks", "broken": [{"what": a, "name": b, "detail": c} for a, b, c in broken],
-                       "searched": "%d real plugin runs over seeds %s and histories %s: all output trees byte-identical; %d generations inside %d multi-generation "
-                                   "processes: all equal to fresh-process output" % (ntrees, seeds, HISTS, ncomp, len(pres))},
+                       "searched": "%d real plugin runs over seeds %s, model lists %s and histories %s: all output trees byte-identical; %d generations inside %d multi-generation "
+                                   "processes: all equal to fresh-process output" % (ntrees, seeds, sorted({j[1] for j in jobs}), HISTS, ncomp, len(pres))},
                       no_input=True)
 
 
@@ -456,17 +762,24 @@ def replay(path):
         print("no concrete input recorded:", json.dumps(r.get("broken"))[:2000])
         return 1
     if r.get("kind") == "process-history":
-        _, pres, _ = run_stream([], workers=2, seqs=[(inp["sequence"], inp["seed"], [tuple(x) for x in inp["steps"]])])
+        _, pres, _, _ = run_stream([], workers=2, seqs=[(inp["sequence"], inp["seed"], [tuple(x) for x in inp["steps"]])])
         if pres[0]["error"] or pres[0]["bad"]:
             print("still fails:", json.dumps(pres[0]["bad"][0] if pres[0]["bad"] else pres[0]["error"])[:1500])
             return 1
         print("no longer fails")
         return 0
     m = inp.get("models", "committed")
-    res, _, _ = run_stream(sorted({(inp["plugin"], m, "1", "fresh"), (inp["plugin"], m, inp["seed"], inp["history"])}), workers=2)
-    bad = judge(res)
-    if bad:
-        print("still fails:", json.dumps(bad[0])[:1500])
+    # the model documents recorded in the replay file are used as they stand there
+    documents = {x["file"][:-5]: x["document"] for x in inp.get("model_files") or [] if isinstance(x, dict) and isinstance(x.get("document"), dict)}
+    b = {"plugin": inp["plugin"], "models": m, "seed": inp["seed"], "history": inp["history"], "what": (r.get("observed_impl") or {}).get("what", "")}
+    if inp.get("plan"):
+        b["planted"] = inp["plan"]
+
+    def after(res, base, models):
+        return explain(b, base, models, reduce=False)
+    _, _, _, e = run_stream([], workers=2, documents=documents, after=after)
+    if e.get("confirmed_by_second_run"):
+        print("still fails:", json.dumps({k: e[k] for k in ("plugin", "models", "seed", "history", "directory_before_the_run", "observed") if k in e})[:3000])
         return 1
-    print("no longer fails")
+    print("no longer fails" + (": " + e["note"] if e.get("note") else ""))
     return 0
